@@ -65,11 +65,15 @@ func newRpcQueue(maxSize int) *rpcQueue {
 }
 
 func (q *rpcQueue) Push(rpc *RPC, block bool) error {
-	return q.push(rpc, false, block)
+	err := q.push(rpc, false, block)
+	verifObservePush(q, rpc, err)
+	return err
 }
 
 func (q *rpcQueue) UrgentPush(rpc *RPC, block bool) error {
-	return q.push(rpc, true, block)
+	err := q.push(rpc, true, block)
+	verifObservePush(q, rpc, err)
+	return err
 }
 
 func (q *rpcQueue) push(rpc *RPC, urgent bool, block bool) error {
